@@ -235,6 +235,21 @@ def run():
         if not verdicts[str(i)]:
             ck.reject(f"C17:float:{'exp' if 'e' in s.lower() else 'plain'}", f"{s} evaluates to {out[str(i)]['end']}, which is not the double nearest to the written decimal",
                       {"src": s, "observed": out[str(i)]["end"]})
+    # an escape that the lexer ACCEPTS means the same characters in a plain quoted string and in a piece of a string with an interpolation
+    # (the reference documents few escapes; whatever the others decode to, they decode to one thing)
+    esc = ["\\n", "\\t", "\\\\", "\\\"", "\\a", "\\r", "\\x41", "\\u00e9", "\\101", "\\'", "\\xe3\\x81\\x82", "\\377", "\\x80", "\\xff", "\\U0001F600", "\\u3042", "\\b", "\\f", "\\v", "\\x7f"]
+    ereqs = []
+    for k, e in enumerate(esc):
+        ereqs.append({"id": f"e{k}", "src": f'p := "{e}"; one := 1; [("{e}#{{one}}") == p + "1", ("#{{one}}{e}") == "1" + p, ("a{e}#{{one}}{e}z") == "a" + p + "1" + p + "z", ("{e}#{{one}}").len == p.len + 1]'})
+    eout = run_cases(ereqs, label="C17 escapes in pieces")
+    for k, e in enumerate(esc):
+        got = eout[f"e{k}"]["end"]
+        if got.startswith(("discarded:", "fuel:")) or not got.startswith("val:"):
+            continue            # the escape is not accepted at all: rejected in both kinds of literal, nothing to compare
+        if got != "val:[true, true, true, true]":
+            ck.reject("C17:string:escape-in-piece", f"the escape {e!r} decodes differently in a plain string and in a piece of a string with an interpolation: {got}",
+                      {"src": ereqs[k]["src"], "observed": got, "expected": "val:[true, true, true, true]"})
+    total += len(ereqs)
     # exponent forms whose value does not depend on the exponent's size: a zero mantissa denotes 0 (also when the exponent itself is
     # astronomically large or small), and a non-zero mantissa with such an exponent cannot be represented
     zexp = [("0e99999999", "val:0"), ("0e99999999999999999999", "val:0"), ("00e5", "val:0"), ("0e-99999999999999999999", "val:0"), ("0_0e7", "val:0"), ("0e0", "val:0"),
